@@ -1,6 +1,8 @@
 #![allow(clippy::all)]
 mod alloc;
 mod explore;
+mod histex;
+mod propsb;
 mod props;
 mod sched;
 mod selftest;
@@ -46,6 +48,10 @@ fn main() {
                     }
                 };
                 std::process::exit(props::check_a(&prop, tier, st));
+            }
+            let t0 = std::time::Instant::now();
+            if let Some(r) = propsb::run(&prop, tier) {
+                std::process::exit(histex::finish_check(&prop, if tier == props::Tier::Quick { "quick" } else { "thorough" }, t0, r));
             }
             eprintln!("unknown property {}", prop);
             std::process::exit(2);
